@@ -41,7 +41,7 @@ CLAIMED = {
    "MemGuard.tla transcribes lock_arr_writeability / unique_arrs_and_bases / _release_lock_on_arr_writeability and the locking steps of Tensor._op together with CPython reference counting (which decides when an operation's finaliser runs). TLC checks (S) arrays of live guarded ops are read-only and (R) flags return to their original value once no live graph refers to an array, exhaustively over every order of drops, clear_graph calls and failing operations (1.5M states at the quick bound). Every behaviour of bounded length and seeded long simulations are replayed with real arrays, tensors, ops and dels, comparing every writeable flag (and, as drift indicator, the lock-table sizes) after every statement.",
    "explicit TLA+ mechanism model checked exhaustively with TLC; all enumerated behaviours and simulated behaviours replayed on the implementation"),
  "C15": ("model_checking", "5 C15",
-   "Context.tla transcribes ContextTracker (per-manager depth counter and depth->saved dict, enter/exit/decorator, turn_memory_guarding_*). TLC checks ScopedRestore / EnterSets / DepthConsistent / DefaultOutside exhaustively to nesting depth 7 (~670k states); every behaviour of bounded length is replayed with real with-blocks, decorators and raising bodies, comparing both switches after every event; programs executed inside random nestings are validated against Ref.tla (untracked ops record nothing, keep gradients, write in place; backward is a no-op).",
+   "Context.tla transcribes ContextTracker (per-manager depth counter and depth->saved dict, enter/exit/decorator, turn_memory_guarding_*). TLC checks ScopedRestore / EnterSets / DepthConsistent / DefaultOutside exhaustively to nesting depth 5 with turn_memory_guarding_* also inside scopes (~630k states); every behaviour of bounded length is replayed with real with-blocks, decorators and raising bodies, comparing both switches after every event; programs executed inside random nestings are validated against Ref.tla (untracked ops record nothing, keep gradients, write in place; backward is a no-op).",
    "explicit TLA+ mechanism model checked exhaustively with TLC; every enumerated behaviour replayed on the implementation; trace validation of programs run inside scopes"),
  "C02": ("model_checking", "5 C02",
    "OpTable.tla enumerates, for every operation the reference defines (arithmetic, power, abs/relu, reductions incl. prod with zeros, var/ddof, matmul, get/set-item with basic / advanced / boolean / repeated indices and broadcast values, ufunc where=+out=, reshaping / transposing / joining / tiling / where), the lattice of operand shapes (0-d, empty, broadcasting), operand kinds (tensor, constant, transposed view, scalar, array) and options, and computes value, shape and the exact VJP for a filler seed from the forward definition over dual numbers; every cell is replayed on MyGrad and compared exactly. For the transcendental kernels Kernels.tla states each derivative as an expression tree, TLC checks the table is total and the domain grids cover both signs and the documented conventions are rows; the harness evaluates the trees in extended precision on the grids (1e-9) and the convention rows exactly. Operations without a row are listed in the evidence.",
@@ -81,7 +81,7 @@ for p in props:
 na = [{"property_id": p["id"], "reason": "check not built yet in this revision (framework under construction; DESIGN.md section 10 gives the order)"} for p in props if p["id"] not in CLAIMED]
 m = {"version": 1,
  "setup_cmd": "./setup.sh",
- "hooks": {"guard": "MYGRAD_VERIF", "enable": "MYGRAD_VERIF=1 in the environment (checks that need internal events set it themselves); no build step: mygrad is imported from /repo/src",
+ "hooks": {"guard": "MYGRAD_VERIF", "enable": "no hooks were added to rsokl/MyGrad: every observable the properties speak about is reachable through the public API, so the guard variable MYGRAD_VERIF is reserved but read nowhere; no build step: mygrad is imported from /repo/src (the current working tree)",
            "baseline_off_cmd": "cd /repo && /venv/bin/python -m pytest -q -p no:cacheprovider --timeout=900",
            "source_commits": [], "add_only": True},
  "engines": [{"name": "tlc-ref", "path": "/verif/spec", "serves_properties": sorted(CLAIMED), "kind_free_text": "TLA+ specifications (spec/*.tla) checked with TLC; Python harness (harness/) replays TLC behaviours into MyGrad and feeds recorded traces back to TLC"}],
